@@ -19,6 +19,7 @@ FAMILIES_OF = {
     "C05": ["plain", "full", "hints", "soft", "softx", "hard", "deep", "lazycon"],
     "C07": ["plain", "full", "wide", "hard", "deep", "lazycon"],
     "C08": ["plain", "full", "wide", "hard", "deep", "lazycon"],
+    "C10": ["async", "asynchard"],
     "C13": ["reuse"],
     "C14": ["soft", "softx"],
     "C15": ["wide", "full", "deep", "lazycon"],
@@ -122,6 +123,7 @@ def coverage_of(summary):
         "cert_families": summary["families"],
         "cert_profiles": summary["profiles"],
         "cert_relevant_universes": summary["relevant"],
+        "cert_queries_re_asked_to_cvc5": summary.get("cvc5_cross_checked", 0),
     }
 
 
@@ -129,7 +131,7 @@ CERT_ASSUMPTIONS = [
     "certificate engine: the real Solver::solve of the scratch copy (pinned 1.86 toolchain, REAL dependencies, dev and release) is run on every universe; read-only accessors (cfg(verif_cert), appended to the scratch copy only) dump the clause database through the solver's own visit_literals",
     "universes are ENUMERATED by a seeded generator (families: see cert_families); for each universe z3 decides the stated questions for ALL selections of the solvables and all values of the helper variables - the universes themselves are not symbolic",
     "Spec(U) is written from the text of C01: root requirements/constraints, requirements and constrains of every solvable, Unknown dependencies, provider exclusions, locks, one solvable per package; candidates = get_candidates list filtered by the version set",
-    "z3 (python3-vt) is trusted; any `unknown` answer makes the check inconclusive",
+    "z3 (python3-vt) is trusted; any `unknown` answer makes the check inconclusive; every 499th query is re-asked to cvc5 1.0 and a disagreement makes the check inconclusive",
 ]
 
 
